@@ -6,7 +6,7 @@
                    the slots and the appended bytes (whatever else changes before them or is
                    appended later) *)
 From CV Require Import Value.ValueEq Value.EqualM Value.Den Value.DenFacts Value.DenLists Value.CanonSpec Value.CanonM
-                       Value.CanonMData Value.CanonMHeap Value.CanonMLoop Value.CanonMInd Value.CanonMListR.
+                       Value.CanonMData Value.CanonMHeap Value.CanonMLoop Value.CanonMInd Value.CanonMListR Value.CanonMListC.
 From CV Require Import Core.ReaderFacts Core.SafetyProofs Core.BuilderFacts Core.ArithFacts Core.CopySafe Core.WritePtrProofs.
 From CV Require Core.HeapInv.
 From Coq Require Import ZifyBool ZifyNat.
@@ -263,3 +263,71 @@ Proof.
               apply firstn_all2. rewrite le_encode_length. lia.
         -- rewrite <- app_assoc. apply (Post pre' (body ++ tail) Lp Hs1 i). lia.
 Qed.
+
+(* ------------------------------------------------------------------ the element loop of a list copy, semantically *)
+(* [step] handles element i: it writes the block of bw words at B + 8*bw*i and appends bytes *)
+Lemma sem_blocks_loop (step : world -> Z -> res world) (m : segs) (B bw : Z) (n : nat) (P : Z -> list Z -> Prop) :
+  0 <= B -> B mod 8 = 0 -> 0 <= bw ->
+  (forall i D cap rl w', 0 <= i < Z.of_nat n -> hinv D -> B + 8 * bw * Z.of_nat n <= zlen D ->
+     step (dstw D cap m rl) i = Ok w' ->
+     exists block body cap' rl',
+       zlen block = bw /\
+       w' = dstw (set_slots D (B + 8 * bw * i) block ++ body) cap' m rl' /\ hinv (D ++ body) /\
+       forall pre' tail, zlen pre' = zlen D -> sub pre' (B + 8 * bw * i) (8 * bw) = bytes_of_words block ->
+         P i (pre' ++ body ++ tail)) ->
+  forall k, (k <= n)%nat -> forall D cap rl w',
+    hinv D -> B + 8 * bw * Z.of_nat n <= zlen D ->
+    fold_res (iota k) (dstw D cap m rl) step = Ok w' ->
+    exists words kids cap' rl',
+      zlen words = bw * Z.of_nat k /\ w' = dstw (set_slots D B words ++ kids) cap' m rl' /\ hinv (D ++ kids) /\
+      forall pre' tail, zlen pre' = zlen D -> sub pre' B (8 * bw * Z.of_nat k) = bytes_of_words words ->
+        forall i, 0 <= i < Z.of_nat k -> P i (pre' ++ kids ++ tail).
+Proof.
+  intros HB HBm Hbw Hstep. induction k as [|k IH]; intros Hk D cap rl w' Hi Hb H.
+  - cbn in H. inversion H; subst. exists [], [], cap, rl. split; [unfold zlen; cbn; lia|].
+    rewrite set_slots_nil by (unfold zlen in *; nia). rewrite !app_nil_r.
+    split; [reflexivity|]. split; [exact Hi|]. intros pre' tail _ _ i Hi0. lia.
+  - rewrite iota_S, fold_res_app in H.
+    destruct (fold_res (iota k) (dstw D cap m rl) step) as [wk| |] eqn:Ek; try discriminate. cbn [bind] in H.
+    destruct (IH ltac:(lia) D cap rl wk Hi Hb Ek) as (words & kids & cap1 & rl1 & Lw & -> & Hi1 & Post).
+    cbn [fold_res] in H. destruct (step _ (Z.of_nat k)) as [w2| |] eqn:Es; try discriminate. cbn [bind] in H.
+    inversion H; subst w'; clear H.
+    assert (Hnn : bw * Z.of_nat k + bw <= bw * Z.of_nat n) by nia.
+    assert (Lsl : zlen (set_slots D B words) = zlen D).
+    { apply set_slots_length; [assumption|]. unfold zlen in *. lia. }
+    assert (Hi1' : hinv (set_slots D B words ++ kids)).
+    { unfold hinv in *. rewrite zlen_app, Lsl. rewrite zlen_app in Hi1. exact Hi1. }
+    destruct (Hstep (Z.of_nat k) _ cap1 rl1 w2 ltac:(lia) Hi1'
+                    ltac:(rewrite zlen_app, Lsl; unfold zlen in *; lia) Es)
+      as (block & body & cap2 & rl2 & Lbk & -> & Hi2 & PostK).
+    exists (words ++ block), (kids ++ body), cap2, rl2.
+    split; [rewrite zlen_app; lia|]. split.
+    + f_equal. rewrite set_slots_app_left by (try rewrite Lsl; lia).
+      replace (B + 8 * bw * Z.of_nat k) with (B + 8 * zlen words) by lia.
+      rewrite set_slots_app by (try rewrite zlen_app; lia).
+      rewrite <- !app_assoc. reflexivity.
+    + split.
+      * unfold hinv in *. rewrite !zlen_app in *. rewrite Lsl in Hi2. lia.
+      * intros pre' tail Lp Hs i Hi0.
+        assert (Lbw : zlen (bytes_of_words words) = 8 * bw * Z.of_nat k) by (unfold zlen in *; rewrite bow_length; lia).
+        assert (Lbb : zlen (bytes_of_words block) = 8 * bw) by (unfold zlen in *; rewrite bow_length; lia).
+        replace (8 * bw * Z.of_nat (S k)) with (8 * bw * Z.of_nat k + 8 * bw) in Hs by lia.
+        assert (Hs1 : sub pre' B (8 * bw * Z.of_nat k) = bytes_of_words words).
+        { rewrite (sub_prefix pre' B (8 * bw * Z.of_nat k) (8 * bw)) by lia. rewrite Hs, bow_app.
+          rewrite firstn_app, firstn_all2 by (unfold zlen in Lbw; lia).
+          replace (Z.to_nat (8 * bw * Z.of_nat k) - length (bytes_of_words words))%nat with 0%nat by (unfold zlen in Lbw; lia).
+          cbn [firstn]. apply app_nil_r. }
+        destruct (Z.eq_dec i (Z.of_nat k)) as [->|Hne].
+        -- rewrite <- app_assoc. rewrite (app_assoc pre' kids). apply PostK.
+           ++ rewrite !zlen_app, Lsl. lia.
+           ++ rewrite sub_app_l by (unfold zlen in *; lia).
+              replace (sub pre' (B + 8 * bw * Z.of_nat k) (8 * bw))
+                with (sub (sub pre' B (8 * bw * Z.of_nat k + 8 * bw)) (8 * bw * Z.of_nat k) (8 * bw))
+                by (apply sub_sub; lia).
+              rewrite Hs, bow_app. rewrite sub_app_r by lia. rewrite Lbw, Z.sub_diag.
+              unfold sub. cbn [Z.to_nat skipn]. apply firstn_all2. unfold zlen in Lbb. lia.
+        -- rewrite <- app_assoc. apply (Post pre' (body ++ tail) Lp Hs1 i). lia.
+Qed.
+
+Lemma set_slots_one D A w : set_slots D A [w] = put_word D A w.
+Proof. unfold set_slots, put_word. cbn [bytes_of_words flat_map length]. rewrite app_nil_r. reflexivity. Qed.
